@@ -140,10 +140,10 @@ type c43Map struct {
 }
 
 type c43Model struct {
-	maps    []c43Map             // physical mappings, sorted by id
+	maps    []c43Map                 // physical mappings, sorted by id
 	def     map[[2]int]platform.ID   // (org, db) → default mapping (after the last sweep)
 	pending map[[2]int][]platform.ID // (org, db) → mappings the code may have picked as the new default; empty slice = "no default"
-	tainted [2]bool              // an operation addressed a virtual mapping id in this organization
+	tainted [2]bool                  // an operation addressed a virtual mapping id in this organization
 }
 
 func c43NewModel() *c43Model {
